@@ -98,6 +98,25 @@ def templates(tier, seed):
                 for strict in (False, True):
                     ts.append(Template(f"T3/{pattern}/{''.join(arr)}/strict={strict}/N={N}", t_frame,
                                        (arr, strict, False, N, {"regex": pattern}), twin=None))
+    # T4 index schemas (Index on a frame / on a series, two-level MultiIndex), T5 physical dtypes, T6 dataframe-level and multiple checks
+    t_index = tmpl.pick(tmpl.index_case, LABELS)
+    t_wide = tmpl.pick(tmpl.wide_case, LABELS)
+    for N in ((2,) if tier == "quick" else (0, 1, 2, 3)):
+        for shape in ("frame_index", "series_index", "frame_multiindex"):
+            for lazy in (False, True):
+                ts.append(Template(f"T4/{shape}/lazy={int(lazy)}/N={N}", t_index, (shape, N, dict(lazy=lazy)), twin="verdict"))
+        for rd in ("exclude_first", "exclude_last"):
+            ts.append(Template(f"T4/frame_index/rd={rd}/N={N}", t_index, ("frame_index", N, dict(rd=rd))))
+        for iname, sname in (("i", "i"), ("i", "j"), (None, "j"), ("i", None)):
+            ts.append(Template(f"T4/frame_index/name={iname}-{sname}/N={N}", t_index, ("frame_index", N, dict(index_name=iname, schema_index_name=sname))))
+        for shape in ("rowwise", "scalar", "element_wise", "two_checks"):
+            for lazy in (False, True):
+                ts.append(Template(f"T6/{shape}/lazy={int(lazy)}/N={N}", t_wide, (shape, N, dict(lazy=lazy)), twin="verdict"))
+        for kinds in ({"a": "int"}, {"b": "float"}, {"a": "str"}, {"a": "bool"}):
+            tag = "+".join(f"{k}={x}" for k, x in kinds.items())
+            ts.append(Template(f"T5/wrong_dtype/{tag}/N={N}", t_frame, (["a", "b"], False, False, N, {"kinds": dict(tmpl.KINDS, **kinds)})))
+    for N in ((0, 1) if tier == "quick" else (0, 1)):
+        ts.append(Template(f"T2/ab/strict=False/ordered=0/N={N}", t_frame, (["a", "b"], False, False, N, {})))
     # label level with three declared columns (two of them optional or required, chosen by the solver) over every arrangement
     import itertools
 
